@@ -451,6 +451,28 @@ def _canon_block(stmts):
             body.append(ast.copy_location(ast.AugAssign(target=ast.Name(id=s.target.id, ctx=ast.Store()), op=ast.Add(),
                                                         value=ast.Constant(1)), s))
             s = ast.copy_location(ast.While(test=test, body=body, orelse=[]), s)
+        # C25: `for i, c in enumerate(x): body`  (x a name that the body does not rebind, no continue, i and c not stored)
+        #      ->  `i = 0; while i < len(x): c = x[i]; body; i += 1`   - the indexed loop it abbreviates
+        if isinstance(s, ast.For) and not s.orelse and isinstance(s.target, ast.Tuple) and len(s.target.elts) == 2 \
+                and all(isinstance(t, ast.Name) for t in s.target.elts) and isinstance(s.iter, ast.Call) \
+                and isinstance(s.iter.func, ast.Name) and s.iter.func.id == 'enumerate' and len(s.iter.args) == 1 \
+                and not s.iter.keywords and isinstance(s.iter.args[0], ast.Name):
+            iv, cv, xs = s.target.elts[0].id, s.target.elts[1].id, s.iter.args[0].id
+            probe = ast.For(target=ast.Name(id=iv, ctx=ast.Store()), iter=s.iter, body=s.body, orelse=[])
+            stored = {x.id for st in s.body for x in ast.walk(st) if isinstance(x, ast.Name) and isinstance(x.ctx, (ast.Store, ast.Del))}
+            if _count_loop_ok(probe) and not (stored & {iv, cv, xs}):
+                def nm(i, ctx=ast.Load):
+                    return ast.Name(id=i, ctx=ctx())
+                out.append(ast.fix_missing_locations(ast.copy_location(
+                    ast.Assign(targets=[nm(iv, ast.Store)], value=ast.Constant(0)), s)))
+                test = ast.Compare(left=nm(iv), ops=[ast.Lt()], comparators=[ast.Call(func=nm('len'), args=[nm(xs)], keywords=[])])
+                first = ast.Assign(targets=[nm(cv, ast.Store)], value=ast.Subscript(value=nm(xs), slice=nm(iv), ctx=ast.Load()))
+                inc = ast.AugAssign(target=nm(iv, ast.Store), op=ast.Add(), value=ast.Constant(1))
+                w = ast.While(test=test, body=[first] + list(s.body) + [inc], orelse=[])
+                s = ast.fix_missing_locations(ast.copy_location(w, s))
+                for x in ast.walk(s):
+                    if not hasattr(x, 'lineno'):
+                        x.lineno, x.col_offset = s.lineno, s.col_offset
         for sub in ('body', 'orelse', 'finalbody'):
             if isinstance(getattr(s, sub, None), list):
                 setattr(s, sub, _canon_block(getattr(s, sub)))
@@ -510,20 +532,34 @@ def _tail_duplicate(stmts):
     while i < len(stmts):
         s = stmts[i]
         nxt = stmts[i + 1] if i + 1 < len(stmts) else None
-        if isinstance(s, ast.If) and s.body and s.orelse and isinstance(nxt, ast.If) \
-                and isinstance(s.body[-1], ast.Assign) and isinstance(s.orelse[-1], ast.Assign) \
-                and len(s.body[-1].targets) == 1 and isinstance(s.body[-1].targets[0], ast.Name) \
-                and len(s.orelse[-1].targets) == 1 and isinstance(s.orelse[-1].targets[0], ast.Name) \
-                and s.body[-1].targets[0].id == s.orelse[-1].targets[0].id:
-            b = s.body[-1].targets[0].id
-            reads = any(isinstance(x, ast.Name) and x.id == b for x in ast.walk(nxt.test))
-            size = sum(1 for _ in ast.walk(nxt))
-            if reads and size <= 80:
-                s.body = s.body + [copy.deepcopy(nxt)]
-                s.orelse = s.orelse + [copy.deepcopy(nxt)]
-                out.append(s)
-                i += 2
-                continue
+        if isinstance(s, ast.If) and s.body and s.orelse and isinstance(nxt, ast.If):
+            # the leaves of the if / elif / else chain: every one must end by assigning the same name
+            leaves = []
+
+            def collect(node):
+                leaves.append(node.body)
+                if len(node.orelse) == 1 and isinstance(node.orelse[0], ast.If) and node.orelse[0].orelse:
+                    collect(node.orelse[0])
+                else:
+                    leaves.append(node.orelse)
+            collect(s)
+            names = set()
+            for lf in leaves:
+                last = lf[-1] if lf else None
+                if isinstance(last, ast.Assign) and len(last.targets) == 1 and isinstance(last.targets[0], ast.Name):
+                    names.add(last.targets[0].id)
+                else:
+                    names.add(None)
+            if len(names) == 1 and None not in names:
+                b = next(iter(names))
+                reads = any(isinstance(x, ast.Name) and x.id == b for x in ast.walk(nxt.test))
+                size = sum(1 for _ in ast.walk(nxt))
+                if reads and size * len(leaves) <= 240:
+                    for lf in leaves:
+                        lf.append(copy.deepcopy(nxt))
+                    out.append(s)
+                    i += 2
+                    continue
         out.append(s)
         i += 1
     return out
